@@ -1,0 +1,14 @@
+//go:build verif
+
+package getter
+
+// Contracts checked by /verif (govc). Comment-only file: it adds no code.
+
+//@ ghost func sameOrigin(a string, b string) bool = schemeOf(a) == schemeOf(b) && hostOf(a) == hostOf(b)
+
+//@ func (*HTTPGetter).get
+//@   props C19
+//@   requires g != nil
+//@   ensures [same-origin] forall r ref :: GauthSent[r] && !old(GauthSent)[r] ==> old(g.opts.passCredentialsAll) || sameOrigin(old(g.opts.url), href)
+//@   ensures [needs-both] forall r ref :: GauthSent[r] && !old(GauthSent)[r] ==> old(g.opts.username) != "" && old(g.opts.password) != ""
+//@   ensures [monotone] forall r ref :: old(GauthSent)[r] ==> GauthSent[r]
